@@ -459,6 +459,12 @@ func extractC14(c *Ctx) error {
 	if err := c14MemoryState(c); err != nil {
 		return err
 	}
+	if err := c14QueueGetters(c); err != nil {
+		return err
+	}
+	if err := c14ReassignLoop(c); err != nil {
+		return err
+	}
 	return c14EnqueueSites(c)
 }
 
